@@ -24,6 +24,7 @@ type TV struct {
 
 type SpecEnv struct {
 	vc    *VC
+	params map[string]TV // entry values of parameters (for entry(x))
 	vars  map[string]TV
 	heap  *Heap
 	old   *Heap
@@ -256,7 +257,9 @@ func (e *SpecEnv) selectField(x TV, name string) TV {
 			e.fail("no field %s in %s", name, x.Ty)
 		}
 		arr := vc.fieldArr(vc.structName(elemT, st), st.Field(i))
-		return TV{T: fmt.Sprintf("(select %s %s)", e.curHeap().get(arr), x.T), Ty: st.Field(i).Type()}
+		r := TV{T: fmt.Sprintf("(select %s %s)", e.curHeap().get(arr), x.T), Ty: st.Field(i).Type()}
+		e.assumeWF(r)
+		return r
 	}
 	if st, ok := x.Ty.Underlying().(*types.Struct); ok {
 		i := findField(st, name)
@@ -268,6 +271,22 @@ func (e *SpecEnv) selectField(x TV, name string) TV {
 	}
 	e.fail("cannot select .%s from %v", name, x.Ty)
 	return TV{}
+}
+
+// assumeWF records the machine-level well-formedness of a value read from the
+// heap by a specification (lengths non-negative, ...), as loads in code do.
+func (e *SpecEnv) assumeWF(r TV) {
+	if strings.Contains(r.T, "?") || e.curHeap() == nil {
+		return
+	}
+	switch r.Ty.Underlying().(type) {
+	case *types.Slice:
+		e.vc.wf("true", r.T, r.Ty, e.curHeap().alloc)
+	case *types.Basic:
+		if isString(r.Ty) {
+			e.vc.wf("true", r.T, r.Ty, e.curHeap().alloc)
+		}
+	}
 }
 
 func (e *SpecEnv) expr(x ast.Expr) TV {
@@ -362,7 +381,9 @@ func (e *SpecEnv) expr(x ast.Expr) TV {
 		case *types.Map:
 			k := e.coerce(e.expr(n.Index), u.Key())
 			_, val, _ := vc.mapArrs(u)
-			return TV{T: fmt.Sprintf("(select (select %s %s) %s)", e.curHeap().get(val), b.T, k.T), Ty: u.Elem()}
+			r := TV{T: fmt.Sprintf("(select (select %s %s) %s)", e.curHeap().get(val), b.T, k.T), Ty: u.Elem()}
+			e.assumeWF(r)
+			return r
 		case *types.Basic:
 			if isString(b.Ty) {
 				i := e.coerce(e.expr(n.Index), tInt)
@@ -536,6 +557,20 @@ func (e *SpecEnv) call(n *ast.CallExpr) TV {
 		n2 := *e
 		n2.inOld = true
 		return n2.expr(n.Args[0])
+	case "entry":
+		// entry(p): the value parameter p had when the function was entered
+		// (inside loop invariants a bare name means the variable's current value)
+		id, ok := n.Args[0].(*ast.Ident)
+		if !ok {
+			e.fail("entry(param)")
+		}
+		if tv, ok := e.params[id.Name]; ok {
+			return tv
+		}
+		if tv, ok := e.vars[id.Name]; ok {
+			return tv
+		}
+		e.fail("entry: unknown parameter %s", id.Name)
 	case "let":
 		// let(x, value, body): value is evaluated in the enclosing state (so a
 		// post-state value can be used inside old(...))
